@@ -60,7 +60,13 @@ func vpMutateSigned(value, mut, name string, rng *mrand.Rand) string {
 			return s
 		}
 		b := []byte(s)
-		i := rng.Intn(len(b))
+		// never the last sextet: its low bits may be padding that base64 decoding ignores, which would leave the
+		// decoded bytes (and therefore the credential) unchanged
+		n := len(b) - 2
+		if n < 1 {
+			n = 1
+		}
+		i := rng.Intn(n)
 		if b[i] != 'A' {
 			b[i] = 'A'
 		} else {
